@@ -1,6 +1,6 @@
 (** C15 / C11 — proofs about Model/Ledger.v: representation invariants of ArrayConsumer and
     ArrayBuilder, one-step refinements, exactly-once accounting of whole histories. *)
-From KV Require Import Base.Prelude Model.Ledger.
+From KV Require Import Base.Prelude Model.Ledger Spec.ArrayMacros.
 Local Open Scope nat_scope.
 
 (* ------------------------------------------------------------------ slots *)
@@ -431,4 +431,63 @@ Proof.
     as [[r ev] leak].
   destruct H as [H1 [H2 [H3 H4]]]. repeat split; try assumption;
     destruct (H4 l H) as [ys [Hys [Hv [Hlen [Hleak Hev]]]]]; cbn [app tr_hands] in *; subst; auto.
+Qed.
+
+(* ------------------------------------------------------------------ all values: = std *)
+
+(** a body that always evaluates to a value: map_! completes and IS std's map; every input
+    is handed to the closure once, in order, every output to the caller, nothing leaks *)
+Lemma map_loop_values : forall fuel clo (g : nat -> Z -> Z) track k c b ev rest outs,
+  (forall j x, clo j x = OValue (g j x)) ->
+  c_rep c rest -> b_rep b outs -> length outs + length rest = b_cap b -> length rest < fuel ->
+  map_loop fuel clo track k c b ev =
+    (MBuilt (outs ++ mapi_from k g rest),
+     ev ++ tr_hands track rest ++ map Hand (outs ++ mapi_from k g rest), []).
+Proof.
+  induction fuel as [|fuel IH]; intros clo g track k c b ev rest outs Hg Hc Hb Hroom Hfuel; [lia|].
+  cbn [map_loop]. destruct rest as [|x r].
+  - rewrite (c_next_rep_nil _ Hc). unfold map_finish.
+    rewrite (c_as_slice_rep _ _ Hc), (b_build_rep _ _ Hb). cbn [length] in Hroom.
+    replace (length outs =? b_cap b) with true by (symmetry; apply Nat.eqb_eq; lia).
+    cbn [mapi_from]. rewrite app_nil_r. destruct track; reflexivity.
+  - destruct (c_next_rep_cons _ _ _ Hc) as [c1 [Hn [Hc1 Hcap1]]]. rewrite Hn, Hg.
+    cbn [length] in *.
+    destruct (b_push_rep_room b outs (g k x) Hb) as [b1 [Hp [Hb1 Hbc]]]; [lia|]. rewrite Hp.
+    rewrite (IH clo g track (S k) c1 b1 (ev ++ in_ev track (Hand x)) r (outs ++ [g k x]) Hg Hc1 Hb1).
+    + cbn [mapi_from]. rewrite <- !app_assoc. cbn [app]. destruct track; reflexivity.
+    + rewrite app_length, Hbc. cbn [length]. lia.
+    + lia.
+Qed.
+
+Theorem map_by_val_eq_std : forall clo (g : nat -> Z -> Z) ids,
+  (forall j x, clo j x = OValue (g j x)) ->
+  map_by_val clo ids =
+    (MBuilt (std_map g ids), map Hand ids ++ map Hand (std_map g ids), []).
+Proof.
+  intros clo g ids Hg. unfold map_by_val, std_map.
+  rewrite (map_loop_values (S (length ids)) clo g true 0 (c_new ids) (b_new (length ids)) [] ids []
+             Hg (c_new_rep ids) (b_new_rep _)); [reflexivity | | lia].
+  unfold b_cap, b_new; cbn. now rewrite repeat_length.
+Qed.
+
+Lemma mapi_from_units (g : nat -> Z -> Z) : forall n k,
+  mapi_from k (fun j (_ : Z) => g j (Z.of_nat j)) (repeat 0%Z n)
+  = map (fun j => g j (Z.of_nat j)) (seq k n).
+Proof. induction n as [|n IH]; intro k; cbn; [reflexivity | now rewrite IH]. Qed.
+
+Theorem from_fn_by_val_eq_std : forall clo (g : nat -> Z -> Z) N,
+  (forall j x, clo j x = OValue (g j x)) ->
+  from_fn_by_val clo N =
+    (MBuilt (map (fun j => g j (Z.of_nat j)) (seq 0 N)),
+     map Hand (map (fun j => g j (Z.of_nat j)) (seq 0 N)), []).
+Proof.
+  intros clo g N Hg. unfold from_fn_by_val.
+  rewrite (map_loop_values (S N) (fun k _ => clo k (Z.of_nat k)) (fun j _ => g j (Z.of_nat j)) false 0
+             (c_new (repeat 0%Z N)) (b_new N) [] (repeat 0%Z N) []).
+  - cbn [app tr_hands]. now rewrite mapi_from_units.
+  - intros j x. apply Hg.
+  - apply c_new_rep.
+  - apply b_new_rep.
+  - unfold b_cap, b_new; cbn. now rewrite !repeat_length.
+  - rewrite repeat_length. lia.
 Qed.
